@@ -193,6 +193,14 @@ def run_case(case):
         # same length, different content (must not be dups); an empty pair (never reported)
         fs.write(a.disks[0], b"nodup-a", A.gen_bytes(rng, 777, "rand"))
         fs.write(a.disks[-1], b"nodup-b", A.gen_bytes(rng, 777, "rand"))
+        # same size, same multiset of blocks, other order; and files differing only in a block that occurs an even number of
+        # times: never duplicates
+        bx, by, bz, bw = (A.gen_bytes(rng, a.bs, "rand") for _ in range(4))
+        tail = A.gen_bytes(rng, rng.randint(0, a.bs - 1), "rand")
+        fs.write(a.disks[0], b"perm-a", bx + by + tail)
+        fs.write(a.disks[-1], b"perm-b", by + bx + tail)
+        fs.write(a.disks[0], b"rep-a", bx + bz + bz)
+        fs.write(a.disks[-1], b"rep-b", bx + bw + bw)
         fs.write(a.disks[0], b"empty-a", b"")
         fs.write(a.disks[-1], b"empty-b", b"")
         # pre-existing pool contents
